@@ -563,6 +563,14 @@ func judgeEvictOrder(p *EvictPlan, res *Result, desc string, before evSnap, surv
 			notSmaller := bx.Size >= by.Size && bx.Size/evMiB >= by.Size/evMiB // at least as heavy
 			if notNewer && notSmaller && (older || bigger) {
 				res.violate("C13.c", "lru-order", "%s: %s was kept although it is both less recently used and at least as large as %s, which was evicted", desc, name(x), name(y))
+				continue
+			}
+			// "larger entries weighted up": the weight is the one the property's mechanism note gives,
+			// 100 ms of age per whole MiB. The order of two entries under it does not depend on when
+			// the pass runs: x goes before y iff  (y's last use - x's last use) + 100 ms * (MiB(x) - MiB(y)) > 0.
+			lead := by.LastAccess.Sub(bx.LastAccess) + 100*time.Millisecond*time.Duration(bx.Size/evMiB-by.Size/evMiB)
+			if lead > 0 {
+				res.violate("C13.c", "weighted-order", "%s: %s was kept although its eviction priority (time since last use plus 100 ms per whole MiB) is %v ahead of that of %s, which was evicted", desc, name(x), lead, name(y))
 			}
 		}
 	}
